@@ -52,6 +52,7 @@ type Sim struct {
 	// states (views fall through to the committed ledger for keys the prefix did not write).
 	BeforeCommit func(*BlockTrace)
 	nextDelta    uint32
+	recordOwner  map[string]string       // C17: approval-record key -> logical record that wrote it
 	forceFail    map[common.Uint256]bool // transactions that hook H3 fails after their handler ran
 }
 
